@@ -243,6 +243,60 @@ def part_c(ck):
 
 
 
+# ---------------------------------------------------------------- part D
+def part_d(ck):
+    from pkgcore.operations import repo as repo_ops
+
+    names = ["install", "uninstall"]
+    subsets = [[], ["install"], ["uninstall"], ["install", "uninstall"]]
+    events = []
+    tid = 0
+    for impl, frozen, en, dis in itertools.product(subsets, [False, True], subsets, subsets):
+        body = {}
+        if "install" in impl:
+            body["_cmd_implementation_install"] = lambda self, pkg, observer: ("raw", "install")
+        if "uninstall" in impl:
+            body["_cmd_implementation_uninstall"] = lambda self, pkg, observer: ("raw", "uninstall")
+        raw_cls = type("RawOps", (repo_ops.operations,), body)
+
+        class RawRepo:
+            lock = None
+
+        RawRepo.frozen = frozen
+        rr = RawRepo()
+        rr.operations = raw_cls(rr)
+
+        class Wrapped:
+            raw_repo = rr
+
+        Wrapped.frozen = frozen
+        proxy = repo_ops.operations_proxy(Wrapped(), disable_overrides=dis, enable_overrides=en)
+        rawen = sorted(set(rr.operations.supports()) & set(names))
+        enabled = sorted(set(proxy.supports()) & set(names))
+        sentinel = object()
+        for op, via in itertools.product(names, ["direct", "run"]):
+            ev = dict(t="proxy", tid=tid, i=0, rawen=rawen, en=list(en), dis=list(dis), op=op, via=via, enabled=enabled,
+                      kind="ret", cls="-")
+            try:
+                r = getattr(proxy, op)("pkg") if via == "direct" else proxy.run_if_supported(op, "pkg", or_return=sentinel)
+                if r is sentinel:
+                    ev["kind"] = "or_return"
+                elif r != ("raw", op):
+                    ev["kind"] = "ret-wrong-value"
+            except Exception as e:  # noqa: BLE001
+                ev["kind"] = "raise"
+                ev["cls"] = type(e).__name__
+            events.append(ev)
+            ck.count()
+            if en or dis:
+                ck.nontriv(("proxy", tid))
+            tid += 1
+    for v in ck.trace("RepoOps_Trace", events, label="Trace:proxy-table", timeout=600, cfg_text="SPECIFICATION TraceSpec\n"):
+        ev = events[v["tid"]]
+        ck.violation(v["clause"], dict(part="proxy", case={k: ev[k] for k in ("rawen", "en", "dis", "op", "via")},
+                                       observed={k: ev[k] for k in ("enabled", "kind", "cls")}))
+
+
 # ---------------------------------------------------------------- part B
 class World:
     """One real operation object with recorders around it."""
@@ -378,6 +432,7 @@ def run(ck):
     # 2. part A (finite, complete)
     part_a(ck, None)
     part_c(ck)
+    part_d(ck)
     ck.exhaustive = False  # part A is complete, part B is sampled
     # 3. part B spec -> code
     Dp = ck.pick(5, 8)
